@@ -2,8 +2,16 @@
 leader election never reports two leaders for one term; lock fencing tokens strictly increase.
 
 Monitor shape: the real components run on hsverif.chaosnet ChaosLinks under generated delay
-scripts / loss / partitions while a sampler (sim.control.on_event) reads the public decision
-state of every node after every delivered event.
+scripts / loss / partitions / crashes while a sampler (sim.control.on_event) reads the public
+decision state of every node after every delivered event; client-boundary histories (propose /
+submit futures, lock grants) are checked against that state.
+
+Families (helpers in hsverif/c12_*.py):
+  single    PaxosNode, 3-5 nodes, 1-3 proposers (+ re-proposals), retries; 12 % fault-free liveness cases
+  flex      FlexiblePaxosNode, every (Q1, Q2) with Q1 + Q2 > N
+  multi     MultiPaxosNode, take-over, heartbeats
+  election  LeaderElection x {Bully, Ring, Randomized}, member views full / converging / join, crashes
+  lock      DistributedLock, random acquire / try / release (own, stale, bogus token) / expiry strings
 """
 
 from __future__ import annotations
@@ -12,21 +20,47 @@ from hsverif.core import Family, ensure_repo_on_path
 
 ensure_repo_on_path()
 
-from hsverif import c12_log, c12_single  # noqa: E402
+from hsverif import c12_election, c12_lock, c12_log, c12_single  # noqa: E402
 
 PID = "C12"
 LEVEL = "exploration"
-RULE = "TBD"
-ASSUMPTIONS = []
-MUST_OBSERVE = ["decisions_checked"]
+RULE = (
+    "Cases are JSON values drawn from a per-case RNG: cluster size 3-5, proposal / start / submit times, a chaosnet "
+    "delay script (uniform, bimodal with a tail slower than the retry / heartbeat timeout, per-link asymmetric, "
+    "targeted per message type; iid loss up to 30 %), symmetric and asymmetric partition windows, crash windows "
+    "(election), quorum pair (flex: uniformly among all Q1+Q2>N), lock op strings with gaps around the lease. "
+    "12-15 % of the Paxos cases are fault-free (loss-free, every delay <= max_delay) and carry the bounded-liveness "
+    "clause: single proposer decided at every node within 6 message delays; command submitted to an established "
+    "leader applied at every node within 3 heartbeat intervals + 6 message delays. "
+    "Non-trivial: single = >= 2 proposals and two proposers whose phase 1 was open at the same time (measured from the "
+    "Prepare / Accept sends seen on the wire), fault-free single = every node decided; flex / multi = >= 2 distinct "
+    "nodes became leader and >= 1 slot was reported decided (fault-free: >= 1 slot decided); election = >= 2 "
+    "participants reported a leader and >= 2 terms were seen; lock = >= 3 grants to >= 2 holders with a grant to a "
+    "woken waiter or a lease expiry. Distinctness = hash of the case."
+)
+ASSUMPTIONS = [
+    "a slot of FlexiblePaxosNode / MultiPaxosNode counts as decided at node n when slot <= n.log.commit_index (DESIGN C12)",
+    "a validity check compares with the values proposed / submitted so far at the moment of the decision",
+    "'a proposer's future resolves with the decided value' is read as safety: a resolved future carries the decided value / "
+    "its own slot; futures of losing proposers that never resolve are not reported",
+    "70 % of the chaotic flex / multi cases replicate a command submitted to a leader with node._replicate_slot(), the way "
+    "examples/distributed/flexible_paxos_quorums.py does (the public API alone never replicates it: known finding)",
+    "DistributedLock lease-expiry events are taken from lock._pending_expiry and scheduled once each, as the repository's "
+    "integration tests do (the component has no public way to hand them to the simulation)",
+    "the global `random` module is seeded per case (PaxosNode retry jitter, RandomizedStrategy ballots)",
+    "labels (`shape`) are computed from the observed wire / state history; they never decide a verdict",
+]
+MUST_OBSERVE = ["decisions_checked", "futures_checked", "applies_checked", "reports_checked", "grants_checked", "liveness_runs"]
 
 FAMILIES = {
     "single": Family("single", c12_single.gen_single, c12_single.run_single, case_timeout=30.0),
     "flex": Family("flex", c12_log.gen_log("flex"), c12_log.run_log("flex"), case_timeout=30.0),
     "multi": Family("multi", c12_log.gen_log("multi"), c12_log.run_log("multi"), case_timeout=30.0),
+    "election": Family("election", c12_election.gen_election, c12_election.run_election, case_timeout=30.0),
+    "lock": Family("lock", c12_lock.gen_lock, c12_lock.run_lock, shrink=c12_lock.shrink_lock, case_timeout=20.0),
 }
 
 BUDGET = {
-    "quick": {"single": 6000, "flex": 400, "multi": 400},
-    "thorough": {"single": 400000, "flex": 20000, "multi": 20000},
+    "quick": {"single": 6000, "flex": 400, "multi": 400, "election": 300, "lock": 2000},
+    "thorough": {"single": 300000, "flex": 20000, "multi": 20000, "election": 20000, "lock": 150000},
 }
